@@ -19,14 +19,14 @@ EPOCH = (2024, 1, 1)          # a Monday
 DAY = 1440
 
 
-def inst(m):
+def inst(m, micro=0):
     pj = common.pjplan()
-    return common.FakeDT(*EPOCH) + _dt.timedelta(minutes=m)
+    return common.FakeDT(*EPOCH) + _dt.timedelta(minutes=m, microseconds=micro)
 
 
-def minutes(dt):
+def minutes(dt, micro=0):
     d = dt - common.FakeDT(*EPOCH)
-    us = d.days * 86400 * 10 ** 6 + d.seconds * 10 ** 6 + d.microseconds
+    us = d.days * 86400 * 10 ** 6 + d.seconds * 10 ** 6 + d.microseconds - micro
     if us % (60 * 10 ** 6):
         return None
     return us // (60 * 10 ** 6)
@@ -138,7 +138,7 @@ def build(e):
         return pj.WeeklyCalendar(units_per_day={d: num(u) for d, u in zip(e["days"], e["us"])}, **kw)
     if k == "direct":
         # keys carry a time of day: the class must normalise them to the day
-        return pj.DirectCalendar({inst(d * DAY + (540 if i % 2 else 0)): num(u)
+        return pj.DirectCalendar({inst(d * DAY + (540 if i % 2 else 0), 250000 if i % 3 == 0 else 0): num(u)
                                   for i, (d, u) in enumerate(zip(e["days"], e["us"]))})
     if k == "fixed":
         return pj.FixedCalendar(num(e["u"]), inst(e["s"]) if e["hs"] else None, inst(e["e"]) if e["he"] else None)
@@ -169,6 +169,15 @@ def bounds(e, acc):
     return acc
 
 
+def end_bounds(e, acc):
+    if e["k"] in ("weekly", "fixed") and e["he"]:
+        acc.add(e["e"])
+    elif e["k"] == "op":
+        end_bounds(e["l"], acc)
+        end_bounds(e["r"], acc)
+    return acc
+
+
 def observe(eid, e, rng, window=21, light=False):
     pj = common.pjplan()
     ev = {"id": eid, "expr": e, "built": "ok", "probes": [], "searches": []}
@@ -190,24 +199,29 @@ def observe(eid, e, rng, window=21, light=False):
         ts.add(d * DAY)
         ts.add(d * DAY + 540)
     ts |= {t for t in bounds(e, set()) if t >= 0}
-    for t in sorted(ts):
+    # instants with a sub-second part (as datetime.now() gives) fall into the same model minute, except
+    # exactly on an END bound (date > end is decided below the minute)
+    ends = end_bounds(e, set())
+    probes = [(t, 0) for t in sorted(ts)] + [(t, 500000) for t in sorted(ts)[::3] if t not in ends]
+    for t, micro in probes:
         p = {"t": t, "v": [0, 0], "r": [0, 1], "exc": ""}
         try:
-            p["v"] = to_q(cal.get_available_units(inst(t)))
-            p["r"] = to_q(res.get_available_units(inst(t)))
+            p["v"] = to_q(cal.get_available_units(inst(t, micro)))
+            p["r"] = to_q(res.get_available_units(inst(t, micro)))
         except ZeroDivisionError:
             p["exc"] = "ZeroDivisionError"
         except Exception as x:
             p["exc"] = type(x).__name__
         ev["probes"].append(p)
     starts = [2 * DAY, 5 * DAY + 540, 12 * DAY + 540, S1, E1 + DAY]
+    micro = 0 if ends else 333333
     for frm in (starts if not light else rng.sample(starts, 2)):
         for direction in (1, -1):
             for mx in ((0, 1, 2, 3, 8) if not light else (rng.choice((0, 1, 2)), 8)):
                 s = {"from": frm, "dir": direction, "max": mx, "at": -1, "exc": ""}
                 try:
-                    at = res.get_nearest_availability_date(inst(frm), direction, mx)
-                    m = minutes(at)
+                    at = res.get_nearest_availability_date(inst(frm, micro), direction, mx)
+                    m = minutes(at, micro)
                     s["at"] = -1 if m is None else m
                 except RuntimeError as x:
                     s["exc"] = "RecursionError" if isinstance(x, RecursionError) else "RuntimeError"
